@@ -3,7 +3,7 @@
    the only hypothesis on them is commutativity of * (used for x * col, which the code
    computes as col * x) and, for the NaN law, that the scalar operation propagates NaN. *)
 From Coq Require Import ZArith List Bool String.
-From DM Require Import Base.PyVal Spec.Nf Spec.Arith Gen.KCheck Gen.KArith Model.Store Model.Arith Proofs.ArithFacts.
+From DM Require Import Base.PyVal Base.CsvPy Spec.Nf Spec.Arith Gen.KCheck Gen.KArith Gen.KCsv Model.Store Model.Arith Proofs.ArithFacts.
 Import ListNotations.
 Open Scope Z_scope.
 
@@ -84,6 +84,30 @@ Theorem C13_mixed_unchanged :
   cell_spec num_op fstr KMixed op refl c x = c.
 Proof. exact cell_mixed_unchanged. Qed.
 Print Assumptions C13_mixed_unchanged.
+
+(* the text that + concatenates is Python's str() of the cell: an int is written with every decimal digit whatever
+   its size (2**53 + 1, 64-bit ids: no detour through a float), a float with an integral value as that int, nan / inf /
+   -inf by name, any other float as str(float) *)
+Theorem C13_text_of_numbers :
+  forall fstr,
+  (forall z, text_of fstr (VInt z) = DecimalString.NilZero.string_of_int (Z.to_int z)) /\
+  (forall f, fl_is_finite f && fl_integral f = true -> text_of fstr (VFlt f) = text_of fstr (VInt (fl_trunc f))) /\
+  (forall f, fl_is_finite f = true -> fl_integral f = false -> text_of fstr (VFlt f) = fstr f) /\
+  text_of fstr (VFlt FNan) = "nan"%string /\ text_of fstr (VFlt (FInf false)) = "inf"%string /\
+  text_of fstr (VFlt (FInf true)) = "-inf"%string.
+Proof. exact text_of_numbers. Qed.
+Print Assumptions C13_text_of_numbers.
+Example C13_text_big_int :
+  text_of (fun _ => EmptyString) (VInt 9007199254740993) = "9007199254740993"%string /\
+  text_of (fun _ => EmptyString) (VInt (-4611686018427387907)) = "-4611686018427387907"%string.
+Proof. split; vm_compute; reflexivity. Qed.
+
+(* py3compat.safe_decode -- the helper BaseColumn._operate turns both operands into text with, regenerated from /repo
+   as Gen/KCsv.v k_safe_decode and used by the L1 model of + -- yields exactly that text for every cell *)
+Theorem C13_safe_decode_is_text :
+  forall fstr v, pyv_text (k_safe_decode fstr (pyv_of_val v)) = Ok (text_of fstr v).
+Proof. exact safe_decode_kernel_text. Qed.
+Print Assumptions C13_safe_decode_is_text.
 
 Theorem C13_float_value :
   forall num_op fstr op a b,
